@@ -539,7 +539,7 @@ fn main() {
         let tsi_w = [16u32, 32, 48];
         let toi_w = [0u32, 16, 32, 48, 64, 80, 96, 112];
         let ncls = cci_w.len() * tsi_w.len() * toi_w.len() * FECS.len() * 16;
-        let nrand = ctx.tier.pick(2usize, 12);
+        let nrand = ctx.tier.pick(2usize, 600);
         gens.push(Gen::new("flute_enc_classes", ncls, move |ctx, i| {
             let mut k = i;
             let flags = (k % 16) as u32;
@@ -593,7 +593,7 @@ fn main() {
             }
         }
         let ncombo = combos.len() * FECS.len() * 8;
-        let reps_per = ctx.tier.pick(3usize, 20);
+        let reps_per = ctx.tier.pick(3usize, 600);
         gens.push(Gen::new("ref_enc_classes", ncombo, move |ctx, i| {
             let mut k = i;
             let flags = ((k % 8) as u32) << 1; // cenc, sct, fti
@@ -689,7 +689,7 @@ fn main() {
             cr
         }));
         // ---- SCT sweep: second boundaries and microsecond grid, relations (1)(2)
-        let nsct = ctx.tier.pick(2000usize, 100_000);
+        let nsct = ctx.tier.pick(2000usize, 5_000_000);
         gens.push(Gen::new("sct_sweep", nsct / 100, move |ctx, i| {
             let mut rng = Rng::keyed(ctx.seed, "C06d", 0, i as u64);
             let mut cr = CaseResult::default();
